@@ -165,6 +165,26 @@ func HarnessC11_Multi() {
 				fails[c.set]++
 			}
 			c.release <- out
+			// optionally a call of another set completes at the same moment, so
+			// that one set's result and the failure of another set race
+			if vfParam("pair", 1) == 1 && vfChoice("pair", 2) == 1 {
+				var others []*vfMultiCall
+				for _, o := range pending {
+					if o.set != c.set {
+						others = append(others, o)
+					}
+				}
+				if len(others) > 0 {
+					c2 := others[vfChoice("second", len(others))]
+					out2 := vfChoice("outcome", 2)
+					if out2 == 0 {
+						oks[c2.set]++
+					} else {
+						fails[c2.set]++
+					}
+					c2.release <- out2
+				}
+			}
 		} else {
 			cancelAll(vfErrCancel)
 			cancelled = true
